@@ -221,6 +221,8 @@ def store_child(arg):
     step("call1", lambda: [mod.fn(3), REC.count("fn")])
     step("call2", lambda: [mod.fn(3), REC.count("fn")])
     step("memento", lambda: mod.fn.memento(3) is not None)
+    step("own_reference_external", lambda: bool(mod.fn.memento(3).invocation_metadata.fn_reference_with_args.fn_reference.external))
+    step("listed_external", lambda: [bool(r.external) for r in m.list_memoized_functions(cluster)])
     step("list_mementos", lambda: len(mod.fn.list_mementos()))
     step("list_functions", lambda: [[r.cluster_name, r.module, r.function_name,
                                      m.FunctionReference.parse_qualified_name(r.qualified_name)["version"], r.qualified_name]
@@ -269,6 +271,10 @@ def run_store(case, out, fail):
                     problems.append("memento() does not find the entry")
                 if steps["list_mementos"][2] != 1:
                     problems.append("list_mementos() returns %s entries" % steps["list_mementos"][2])
+                if steps["own_reference_external"][2] is not False or any(steps["listed_external"][2]):
+                    # (the function exists, in exactly this version: it is not a reference to something that is gone)
+                    problems.append("the entry's own function is reported as an external reference (memento: %s, listing: %s)"
+                                    % (steps["own_reference_external"][2], steps["listed_external"][2]))
                 want = [cluster, modname, "fn", version, qn]
                 if want not in steps["list_functions"][2]:
                     problems.append("list_memoized_functions() gives %s, expected an entry %s" % (steps["list_functions"][2], want))
